@@ -7,6 +7,7 @@ import numpy as np
 import sympy
 
 from ..gen import circuits as GC
+from ..gen import numtypes as NT
 from ..gen import siblings as SB
 from ..gen import symbols as GS
 from ..ref import linalg as L
@@ -30,9 +31,16 @@ RULE = (
     "the circuit / two-step / chained flows; rebind = history class: the same circuit / operation / gate bound "
     "repeatedly (other values under the same keys, the first map again, equal values of another numeric type, one "
     "dict changed in place between calls), its gate objects shared with a second circuit, the circuit extended by a "
-    "sibling; non-trivial = some parameter is a non-atomic expression or the map is partial (siblings: at least two "
-    "different gates collide under a non-unique key; rebind: the map touches a symbol of the object); distinct = "
-    "distinct canonical case strings"
+    "sibling, an operation with a symbol of its own appended to the list that circuit.operations handed out; "
+    "numtypes = the gate / wrapped / custom / non-gate / circuit / siblings / two-step / rebind flows with numeric "
+    "parameters and map values spelled in other numeric types (rv.gen.numtypes: fractions.Fraction, decimal.Decimal "
+    "[parameters only], numpy integers and floats of every width, mpmath mpf / mpc, subclasses of int and float, "
+    "Python and numpy complex [gate parameters only], integers beyond 2**53 / 2**63, tiny and huge floats), the map "
+    "handed over as a dict subclass / OrderedDict / defaultdict, some non-ASCII symbol names; "
+    "non-trivial = some parameter is a non-atomic expression or the map is partial (siblings: at least two "
+    "different gates collide under a non-unique key; rebind: the map touches a symbol of the object; numtypes: a "
+    "number of a type other than int / float / sympy was drawn into the case); distinct = distinct canonical case "
+    "strings"
 )
 ASSUMPTIONS = [
     "substitution is defined by the oracle as SIMULTANEOUS structural replacement (sympy xreplace) of the map's keys",
@@ -40,7 +48,17 @@ ASSUMPTIONS = [
     "assignments of the remaining symbols (1e-9); parameters compared exactly when numeric, at 1e-10 relative otherwise",
     "circuit matrices: to_unitary() on all-symbolic / all-numeric circuits of width <= 3, reference embedding of the "
     "per-gate matrices for mixed ones (known finding K5 makes their to_unitary() unobtainable)",
-    "map values are Python int/float or sympy objects (numpy scalars cannot be ingested by sympy 1.9: environment)",
+    "map values are Python int/float or sympy objects; in class numtypes also Fraction, mpmath, int / float "
+    "subclasses, numpy integers, and numpy floats where the library only looks the value up (sympy 1.9 cannot ingest "
+    "numpy floats: when the object has an expression parameter such values are respelled by the generator; a "
+    "ValueError with the K5 signature - raised inside sympy's _convert_numpy_types - while a numpy scalar is among "
+    "the parameters / values is counted as out of domain, a gate matrix that is not computable for that reason is "
+    "not compared)",
+    "a numeric parameter of ANY numbers.Number type (bool and sympy objects apart) must come back identical or of "
+    "the same type and ==; a map value of an unusual numeric type that replaces a bare symbol may come back in "
+    "another spelling of the same value (1e-10)",
+    "a caller may append to the list that circuit.operations hands out (an operation that fits the width): "
+    "free_symbols and bind of that circuit object are then judged against the operations it holds at the call",
     "a bound operation must carry ITS OWN gate: same arity, total number of controls, innermost gate (name, matrix "
     "factory) and dagger parity (the last only when the innermost gate is not declared hermitian); the wrapper "
     "nesting itself may be normalised by the library",
@@ -55,14 +73,20 @@ DECIDING = ["sub_symbols", "get_free_symbols", "custom-factory", "MatrixFactoryG
             "Dagger.replace_params", "GateOperation.replace_params", "MultiPhaseOperation.replace_params",
             "ResetOperation.replace_params", "gate.free_symbols", "operation.free_symbols", "Circuit.free_symbols",
             "two-step", "circuit-unitary", "absent-untouched", "rebind"]
-BUDGET = {"quick": (4, 22, 150), "thorough": (16, 200, 100000)}
+BUDGET = {"quick": (4, 24, 165), "thorough": (16, 200, 100000)}
 CASE_TIMEOUT = {"quick": 15, "thorough": 30}
 
 _G = _C = _O = _W = None
 
 
 def classes(tier):
-    return ["gate", "wrapped", "custom", "nongate", "circuit", "siblings", "chained", "twostep", "rebind", "refuse"]
+    return ["gate", "wrapped", "custom", "nongate", "circuit", "siblings", "chained", "twostep", "rebind", "refuse",
+            "numtypes"]
+
+
+# state of the case being generated: "numtypes" runs the flows of the other classes with numbers spelled in other
+# numeric types (rv.gen.numtypes) as parameters and map values
+_MODE = {"exotic": False, "tag": "", "drawn": 0, "ctx": None}
 
 
 # ============================================================================ oracle helpers
@@ -93,21 +117,53 @@ def _valid_map(m):
     for k, v in m.items():
         if not isinstance(k, sympy.Symbol):
             return False
-        if isinstance(v, bool) or not (isinstance(v, (int, float)) or isinstance(v, sympy.Expr)):
+        if isinstance(v, (bool, np.bool_)) or not (NT.is_number(v) or isinstance(v, sympy.Expr)):
             return False
-        if isinstance(v, float) and not math.isfinite(v):
-            return False
+        if NT.is_number(v):
+            try:
+                z = complex(v)
+            except Exception:
+                return False
+            if not (math.isfinite(z.real) and math.isfinite(z.imag)):
+                return False
     return True
+
+
+def _is_k5(exc):
+    """environment (known finding K5): a ValueError "invalid literal for int() ..." raised inside sympy's
+    _convert_numpy_types - sympy 1.9 was handed a numpy >= 2 scalar, which it cannot ingest"""
+    if not (isinstance(exc, ValueError) and str(exc).startswith("invalid literal for int() with base 10:")):
+        return False
+    tb = exc.__traceback__
+    while tb is not None:
+        code = tb.tb_frame.f_code
+        if code.co_name == "_convert_numpy_types" and "sympy" in code.co_filename:
+            return True
+        tb = tb.tb_next
+    return False
+
+
+def _numpy_in(*things):
+    """some number among the given parameters / map values / maps is a numpy scalar"""
+    for t in things:
+        if isinstance(t, dict):
+            t = list(t.values())
+        if isinstance(t, (tuple, list)):
+            if any(NT.is_numpy(x) for x in t):
+                return True
+        elif NT.is_numpy(t):
+            return True
+    return False
 
 
 def _smap(m):
     """the map with sympified values, for xreplace"""
-    return {k: sympy.sympify(v) for k, v in m.items()}
+    return {k: NT.to_sympy(v) for k, v in m.items()}
 
 
 def own_sub(p, m):
     """the oracle's substitution: simultaneous, structural"""
-    if GS.is_python_number(p):
+    if NT.is_number(p):
         return p
     if isinstance(p, sympy.Symbol):
         return m.get(p, p)
@@ -131,7 +187,7 @@ def _assignments(symbols, rng, k=3):
 
 
 def _val(e, a):
-    if GS.is_python_number(e):
+    if NT.is_number(e):
         return complex(e)
     if a:
         e = e.xreplace(a)
@@ -141,9 +197,17 @@ def _val(e, a):
 def cmp_param(exp, got, rng, touched):
     """None if the observed parameter equals the expected one, else text.
     touched=False: the map does not concern this parameter, it must come back unchanged."""
-    if GS.is_python_number(exp):
-        if type(got) is type(exp) and (got == exp or (got != got and exp != exp)):
-            return None
+    if NT.is_number(exp):
+        try:
+            if got is exp or (type(got) is type(exp) and bool(got == exp or (got != got and exp != exp))):
+                return None
+            if touched and NT.is_exotic(exp) and (NT.is_number(got) or (isinstance(got, sympy.Expr) and not _atoms(got))):
+                # a value of the map in an unusual numeric type: the property fixes the value, not its spelling
+                v1, v2 = _val(exp, None), _val(got, None)
+                if abs(v1 - v2) <= 1e-10 * max(1.0, abs(v1)):
+                    return None
+        except Exception as e:
+            return f"numeric parameter {exp!r} ({type(exp).__name__}) came back as {got!r}: not comparable ({e!r})"
         return f"numeric parameter {exp!r} ({type(exp).__name__}) came back as {got!r} ({type(got).__name__})"
     if not touched:
         if got is exp or (type(got) is type(exp) and got == exp):
@@ -153,7 +217,7 @@ def cmp_param(exp, got, rng, touched):
         if type(got) is type(exp) and got == exp:
             return None
         return f"expected symbol {exp!r}, got {got!r}"
-    if not isinstance(got, (sympy.Expr, int, float, complex)) or isinstance(got, bool):
+    if not (isinstance(got, sympy.Expr) or NT.is_number(got)):
         return f"expected {exp!r}, got {got!r} ({type(got).__name__})"
     s1, s2 = _atoms(exp), _atoms(got)
     if s1 != s2:
@@ -198,6 +262,13 @@ def _rng_for(*parts):
     return random.Random(zlib.crc32("|".join(map(str, parts)).encode()))
 
 
+def pstr(p):
+    """canonical text of a parameter; numbers of other types than int / float / sympy carry their type"""
+    if NT.is_exotic(p):
+        return f"{type(p).__name__}:{p}"
+    return GS.pstr(p)
+
+
 def describe_gate(g):
     mods, b = _chain(g)
     s = "".join({"C": f"C{m[1] if len(m) > 1 else ''}.", "D": "D.", "P": f"P[{m[1]!r}]." if len(m) > 1 else "P.",
@@ -207,16 +278,16 @@ def describe_gate(g):
         d = b.matrix_factory.gate_definition
         name = f"custom:{name}<{','.join(map(str, d.params_ordering))}|{zlib.crc32(str(d.matrix).encode()):08x}>"
     ps = getattr(b, "params", ())
-    return f"{s}{name}({', '.join(GS.pstr(p) for p in ps)})" if ps else f"{s}{name}"
+    return f"{s}{name}({', '.join(pstr(p) for p in ps)})" if ps else f"{s}{name}"
 
 
 def describe_op(op):
     if isinstance(op, _G.GateOperation):
         return f"{describe_gate(op.gate)}@{','.join(map(str, op.qubit_indices))}"
     if isinstance(op, _W.MultiPhaseOperation):
-        return f"MultiPhase({', '.join(GS.pstr(p) for p in op.params)})"
+        return f"MultiPhase({', '.join(pstr(p) for p in op.params)})"
     if isinstance(op, _W.ResetOperation):
-        return f"Reset@{op.qubit_indices[0]}({', '.join(GS.pstr(p) for p in op.params)})"
+        return f"Reset@{op.qubit_indices[0]}({', '.join(pstr(p) for p in op.params)})"
     return type(op).__name__
 
 
@@ -228,7 +299,8 @@ def describe_map(m):
     def key(s):
         extra = "".join(f"{{{k}}}" for k, v in sorted(s.assumptions0.items()) if k == "real" and v)
         return f"{s.name}{extra}"
-    return "{" + ", ".join(f"{key(k)}: {GS.pstr(v)}" for k, v in m.items()) + "}"
+    kind = "" if type(m) is dict else f"{type(m).__name__}"
+    return kind + "{" + ", ".join(f"{key(k)}: {pstr(v)}" for k, v in m.items()) + "}"
 
 
 # ============================================================================ monitors
@@ -239,11 +311,16 @@ def _get(call, i, kw):
 def _post_sub_symbols(mon, call):
     name = "sub_symbols"
     p, m = _get(call, 0, "parameter"), _get(call, 1, "symbols_map")
-    if not _valid_map(m) or isinstance(p, bool) or not (GS.is_python_number(p) or isinstance(p, sympy.Expr)):
+    if not _valid_map(m) or not (NT.is_number(p) or isinstance(p, sympy.Expr)):
         mon.out_of_domain(name)
         return
     if call.exc is not None:
-        mon.violation("sub_symbols-raises", f"sub_symbols({p!r}, {describe_map(m)}) raised {call.exc!r}")
+        if _is_k5(call.exc) and _numpy_in(p, m):
+            mon.out_of_domain(name)
+            mon.note("environment: sympy cannot ingest a numpy scalar (K5 signature)")
+            return
+        mon.violation("sub_symbols-raises", f"sub_symbols({p!r} ({type(p).__name__}), {describe_map(m)}) raised "
+                      f"{call.exc!r}")
         return
     exp = own_sub(p, m)
     touched = bool(_atoms(p) & set(m))
@@ -254,7 +331,16 @@ def _post_sub_symbols(mon, call):
                       f"sub_symbols({p}, {describe_map(m)}): {why}")
         return
     mon.ok(name)
-    mon.note(f"sub_symbols[{'number' if GS.is_python_number(p) else 'symbol' if isinstance(p, sympy.Symbol) else 'expression'}]")
+    mon.note(f"sub_symbols[{'number' if NT.is_number(p) else 'symbol' if isinstance(p, sympy.Symbol) else 'expression'}]")
+    if NT.is_exotic(p):
+        mon.note(f"sub_symbols[number of type {_type_family(p)}]")
+
+
+def _type_family(p):
+    t = type(p)
+    if isinstance(p, np.generic):
+        return f"numpy {np.dtype(t).kind}"
+    return t.__name__
 
 
 def _sorted_ok(lst):
@@ -366,15 +452,18 @@ def _post_custom_factory(mon, call):
     args = call.args[1:]
     d = f.gate_definition
     order = tuple(d.params_ordering)
-    if len(args) != len(order) or not all((GS.is_python_number(a) or isinstance(a, sympy.Expr)) and not isinstance(a, bool)
-                                          for a in args):
+    if len(args) != len(order) or not all(NT.is_number(a) or isinstance(a, sympy.Expr) for a in args):
         mon.out_of_domain(name)
         return
-    what = f"{d.gate_name}<{','.join(map(str, order))}>({', '.join(map(str, args))})"
+    what = f"{d.gate_name}<{','.join(map(str, order))}>({', '.join(map(pstr, args))})"
     if call.exc is not None:
+        if _is_k5(call.exc) and _numpy_in(args):
+            mon.out_of_domain(name)
+            mon.note("environment: sympy cannot ingest a numpy scalar (K5 signature)")
+            return
         mon.violation("custom-factory-raises", f"{what} raised {call.exc!r}")
         return
-    exp = d.matrix.xreplace({s: sympy.sympify(a) for s, a in zip(order, args)})
+    exp = d.matrix.xreplace({s: NT.to_sympy(a) for s, a in zip(order, args)})
     why = cmp_matrix(exp, call.result, _rng_for(what), what)
     if why:
         own = set(order) & set().union(*[_atoms(a) for a in args]) if args else set()
@@ -434,6 +523,10 @@ def _post_gate_bind(kind):
                 mon.violation("bind-unsupported-wrapper-silent", f"{what} returned {call.result} instead of refusing")
             return
         if call.exc is not None:
+            if _is_k5(call.exc) and _numpy_in(tuple(b.params), m):
+                mon.out_of_domain(name)
+                mon.note("environment: sympy cannot ingest a numpy scalar (K5 signature)")
+                return
             mon.violation("bind-raises", f"{what} raised {call.exc!r}")
             return
         r = call.result
@@ -467,13 +560,18 @@ def _post_gate_bind(kind):
                 try:
                     R = r.matrix
                 except Exception as e:
-                    mon.violation("bind-matrix", f"{what}: matrix of the bound gate raised {e!r}")
-                    return
-                why = cmp_matrix(M.xreplace(_smap(m)), R, rng, what)
-                if why:
-                    mon.violation("bind-matrix", f"bind-then-evaluate != evaluate-then-substitute: {why}")
-                    return
-                mon.note("gate matrices compared (bind vs substitute)")
+                    if _is_k5(e) and _numpy_in(tuple(rb.params), m):
+                        R = None
+                        mon.note("environment: matrix of a gate with a numpy parameter not computable (K5 signature)")
+                    else:
+                        mon.violation("bind-matrix", f"{what}: matrix of the bound gate raised {e!r}")
+                        return
+                if R is not None:
+                    why = cmp_matrix(M.xreplace(_smap(m)), R, rng, what)
+                    if why:
+                        mon.violation("bind-matrix", f"bind-then-evaluate != evaluate-then-substitute: {why}")
+                        return
+                    mon.note("gate matrices compared (bind vs substitute)")
         mon.ok(name)
     return post
 
@@ -506,7 +604,7 @@ def _post_gate_replace(kind):
         if not isinstance(new, tuple) or not isinstance(b, _G.MatrixFactoryGate) or len(new) != len(b.params):
             mon.out_of_domain(name)
             return
-        what = f"{describe_gate(g)}.replace_params({tuple(GS.pstr(p) for p in new)})"
+        what = f"{describe_gate(g)}.replace_params({tuple(pstr(p) for p in new)})"
         if call.exc is not None:
             if any(k[0] in "PE" for k in mods) and isinstance(call.exc, ValueError) and any(_atoms(p) for p in new):
                 mon.ok(name)  # power / exponential refuse symbolic parameters by construction
@@ -535,6 +633,12 @@ def _post_gate_replace(kind):
                 B = rb.matrix  # the innermost factory on the new parameters, taken as given
                 R = r.matrix
             except Exception as e:
+                if any(NT.is_exotic(x) for x in new) and (_is_k5(e) or isinstance(e, TypeError)):
+                    # the matrix factory itself cannot evaluate a number of this type (numpy scalars: environment;
+                    # Decimal does not mix with float): nothing to compare the wrapper chain on
+                    mon.note("replace_params: matrix factory cannot evaluate a parameter of an unusual numeric type")
+                    mon.ok(name)
+                    return
                 mon.violation("replace-matrix", f"{what}: matrix raised {e!r}")
                 return
             syms = B.atoms(sympy.Symbol) | R.atoms(sympy.Symbol)
@@ -585,6 +689,9 @@ def _post_wf_bind(kind):
             bad = [e for e, t in exp if t and isinstance(e, sympy.Expr) and e.is_number and e.is_real is False]
             if bad and isinstance(call.exc, ValueError):
                 mon.ok(name)  # MultiPhaseOperation refuses non-real phases
+            elif _is_k5(call.exc) and _numpy_in(tuple(op.params), m):
+                mon.out_of_domain(name)
+                mon.note("environment: sympy cannot ingest a numpy scalar (K5 signature)")
             else:
                 mon.violation("bind-raises", f"{what} raised {call.exc!r}")
             return
@@ -784,10 +891,31 @@ def rand_def(rng, name="Foo", nq=None, nparams=None, syms=None):
     return CustomGateDefinition(gate_name=name, matrix=M, params_ordering=syms)
 
 
-def rand_param(rng, symbols, style):
+def _exotic_number(rng, where):
+    """a number in an unusual spelling (numtypes class).  where: gate (any type, complex too) / phase (real) /
+    value (real, moderate, a type that arithmetic with floats accepts) / bigvalue (value, exact integers beyond
+    2**53 / 2**63 and tiny numbers as well)"""
+    _MODE["drawn"] += 1
+    r = rng.random()
+    if where == "gate":
+        kinds = NT.COMPLEX_KINDS if r < 0.12 else NT.EXTREME_KINDS if r < 0.27 else NT.REAL_KINDS
+    elif where == "phase":
+        kinds = NT.EXTREME_KINDS if r < 0.15 else NT.REAL_KINDS
+    else:
+        kinds = [k for k in NT.REAL_KINDS if k != "decimal"]
+        if r < 0.12:
+            kinds = ["tiny", "tiny_fraction"]
+        elif r < 0.3 and where == "bigvalue":
+            kinds = ["big_int", "big_fraction", "big_np_int"]
+    return NT.rand_number(rng, kinds)
+
+
+def rand_param(rng, symbols, style, where="gate"):
     """style: numeric / symbol / expr / any; expressions stay small (their matrices are evaluated by sympy)"""
     if style == "any":
         style = rng.choice(["numeric", "symbol", "expr", "expr"])
+    if _MODE["exotic"] and (style == "numeric" or not symbols) and rng.random() < 0.85:
+        return _exotic_number(rng, where)
     if style == "numeric" or not symbols:
         return GS.rand_number(rng, rng.choice(["float", "int", "rational", "pi", "sfloat", "float"]))
     if style == "symbol":
@@ -849,6 +977,10 @@ def gate_symbols(g):
 
 
 def rand_value(rng, fresh, kind=None):
+    if _MODE["exotic"] and kind in (None, "float", "int", "snum", "bigvalue") and rng.random() < 0.7:
+        return _exotic_number(rng, "bigvalue" if kind == "bigvalue" else "value")
+    if kind == "bigvalue":
+        kind = None
     kind = kind or rng.choice(["float", "float", "int", "snum", "fresh", "expr"])
     if kind == "float":
         return rng.choice([rng.uniform(-6, 6), rng.uniform(-6, 6), 0.0, 1.0, math.pi, -0.5])
@@ -926,7 +1058,7 @@ def rand_ops(rng, n_ops, symbols, width, defs=None, nongate=0.0, wrapped=0.4):
         if r < nongate:
             if rng.random() < 0.6 and width <= 3:
                 ops.append(_W.MultiPhaseOperation(tuple(
-                    rand_param(rng, symbols, rng.choice(["numeric", "symbol", "expr"])) for _ in range(2 ** width))))
+                    rand_param(rng, symbols, rng.choice(["numeric", "symbol", "expr"]), "phase") for _ in range(2 ** width))))
             else:
                 ops.append(_W.ResetOperation(rng.randrange(width)))
             continue
@@ -995,6 +1127,8 @@ def sibling_circuit(rng, symbols, max_ops=6):
     width = rng.choice([2, 3, 3, 3, 4])
     style = rng.choice(["symbol", "symbol", "expr", "expr", "numeric", "any"])
     shared = [rand_param(rng, symbols, style) for _ in range(rng.choice([1, 1, 2]))]
+    # (rv.gen.siblings builds twins of float subclasses through sympy.Float, which cannot ingest a numpy.float64)
+    shared = [np.float32(p) if type(p) is np.float64 else p for p in shared]
     if rng.random() < 0.25:
         shared.append(SB.twin_param(rng, shared[0]))
     defs = None
@@ -1044,6 +1178,17 @@ def check_circuit_unitary(ctx, c, m, bound):
                                                      for op in c.operations):
         return
     rng = ctx.rng
+    if _numpy_in(m, *[tuple(_op_params(op)) for op in c.operations]):
+        ctx.mon.note("circuit-unitary skipped: numpy scalars among the parameters / values (environment: their gate "
+                     "matrices are not computable)")
+        return
+    if any(NT.is_exotic(p) for op in c.operations for p in _op_params(op)):
+        try:  # can the matrix factories evaluate numbers of these types at all (Decimal does not mix with float)?
+            for op in c.operations:
+                op.gate.matrix
+        except TypeError:
+            ctx.mon.note("circuit-unitary skipped: a matrix factory cannot evaluate a parameter of an unusual numeric type")
+            return
     all_symbolic = all(gate_symbols(op.gate) for op in c.operations)
     b_symbolic = [bool(gate_symbols(op.gate)) for op in bound.operations]
     remaining = set()
@@ -1096,8 +1241,10 @@ def _same_ops(c1, c2, rng):
             if why:
                 return f"{describe_op(a)} vs {describe_op(b)}: {why}"
         for x, y in zip(pa, pb):
-            if GS.is_python_number(x) or GS.is_python_number(y):
-                if not (GS.is_python_number(x) or isinstance(x, sympy.Expr)) or abs(complex(x) - complex(y)) > 1e-10 * max(1, abs(complex(x))):
+            if NT.is_number(x) or NT.is_number(y):
+                ok = (NT.is_number(x) or isinstance(x, sympy.Expr)) and (NT.is_number(y) or isinstance(y, sympy.Expr)) \
+                    and not _atoms(x) and not _atoms(y)
+                if not ok or abs(_val(x, None) - _val(y, None)) > 1e-10 * max(1, abs(_val(x, None))):
                     return f"{describe_op(a)} vs {describe_op(b)}"
                 continue
             why = cmp_param(x, y, rng, True)
@@ -1106,14 +1253,59 @@ def _same_ops(c1, c2, rng):
     return None
 
 
+class _Lookup(dict):
+    """a user's dict subclass (no behaviour of its own)"""
+
+
+def _map_variant(rng, m):
+    """the same map as another kind of dict: a subclass, an OrderedDict, a defaultdict (which INSERTS a key
+    when it is looked up with [] instead of .get / in)"""
+    import collections
+
+    kind = rng.choice(["subclass", "ordered", "defaultdict", "defaultdict"])
+    if kind == "subclass":
+        return _Lookup(m)
+    if kind == "ordered":
+        return collections.OrderedDict(m)
+    d = collections.defaultdict(float)
+    d.update(m)
+    return d
+
+
 def _bind(obj, m, expect_refusal=False):
     """obj.bind(m); the hooks judge.  Returns the result or None when the library raised."""
+    ctx = _MODE["ctx"]
+    passed = m
+    if ctx is not None and ctx.rng.random() < 0.4:  # numtypes: the map handed over as another kind of dict
+        passed = _map_variant(ctx.rng, m)
+        ctx.mon.note(f"map passed as {type(passed).__name__}")
     try:
-        return obj.bind(m)
+        return obj.bind(passed)
     except NotImplementedError:
         return None
     except Exception:
         return None  # recorded by the hook on the raising method
+    finally:
+        if passed is not m:
+            # the hooks judged against the map as it is after the call; it must still be the map that was passed
+            same = list(passed.keys()) == list(m.keys()) and all(passed[k] is m[k] for k in m)
+            ctx.check("absent-untouched", same, lambda: f"binding {describe_map(m)} passed as a {type(passed).__name__} "
+                      f"left the caller's map as {describe_map(passed)}: symbols absent from the map were looked up as "
+                      f"if they were present")
+
+
+def _envfix(m, params):
+    """numtypes, environment: sympy 1.9 cannot ingest numpy floats, so a numpy float may only be the value of a
+    symbol that is substituted by lookup (a bare-symbol parameter).  When the object has an expression parameter,
+    numpy floats among the values are respelled (same value, a float subclass that sympy accepts)."""
+    if not _MODE["exotic"]:
+        return m
+    if not any(isinstance(p, sympy.Expr) and not isinstance(p, sympy.Symbol) and _atoms(p) for p in params):
+        return m
+    for k in list(m):  # (sympy's subs converts every value of the map, also those of symbols that do not occur)
+        if isinstance(m[k], np.floating):
+            m[k] = NT.AngleFloat(float(m[k]))
+    return m
 
 
 def _snapshot(c):
@@ -1136,6 +1328,22 @@ def _against_snapshot(snap, n_qubits, bound, m, rng):
         if why:
             return f"operation {i}: {describe_op(op)} -> {describe_op(b)}: {why}"
     return None
+
+
+def _twin_value(rng, v):
+    """the same value in another numeric type (for symbol maps)"""
+    if NT.is_exotic(v) or (_MODE["exotic"] and NT.is_number(v)):
+        _MODE["drawn"] += 1
+        return NT.twin(rng, v)
+    return SB.twin_value(rng, v)
+
+
+def _describe(ctx, text, nontrivial):
+    """numtypes: the case is non-trivial when a number of an unusual type was drawn into it"""
+    if _MODE["exotic"]:
+        ctx.describe(_MODE["tag"] + text, _MODE["drawn"] > 0)
+    else:
+        ctx.describe(text, nontrivial)
 
 
 def run_rebind(ctx, symbols):
@@ -1165,16 +1373,27 @@ def run_rebind(ctx, symbols):
         # values that have twins under == AND hash: 2 == 2.0 == Integer(2)
         m1 = {k: rng.choice([int, float, sympy.Integer])(rng.randint(-5, 5)) for k in m1}
     m2 = {k: rand_value(rng, fresh) for k in m1}
-    m1t = {k: SB.twin_value(rng, v) for k, v in m1.items()}
+    m1t = {k: _twin_value(rng, v) for k, v in m1.items()}
+    late, late_symbol = None, sympy.Symbol("late_s")
+    lrng = _rng_for(text, "late")  # (own stream: drawn after the fact, the cases of the other steps stay what they were)
+    if lrng.random() < 0.4:
+        e = lrng.choice([late_symbol, 2 * late_symbol, late_symbol + (sorted(used, key=_skey)[0] if used else 1)])
+        late = GC.builtin_table()[lrng.choice(SB.one_param_names(1))]["ref"](e)(lrng.randrange(n_qubits))
+    all_params = [p for _, _, _, params in snap for p in params]
+    for mm in (m1, m2, m1t):
+        _envfix(mm, all_params)
     gate_ops = [op for op in c.operations if isinstance(op, _G.GateOperation)]
     target = rng.choice(["circuit", "circuit", "circuit", "operation", "gate"]) if gate_ops else "circuit"
-    ctx.describe(f"rebind[{target}{'; siblings' if sib else ''}]: {text} bind[{mk}] {describe_map(m1)}, then "
-                 f"{', '.join(steps)} (other values {describe_map(m2)}; twin values {describe_map(m1t)})",
-                 bool(set(m1) & used) and len(steps) > 0)
+    _describe(ctx, f"rebind[{target}{'; siblings' if sib else ''}]: {text} bind[{mk}] {describe_map(m1)}, then "
+              f"{', '.join(steps)} (other values {describe_map(m2)}; twin values {describe_map(m1t)})"
+              + (f"; then {describe_op(late)} appended in place" if late is not None and target == "circuit" else ""),
+              bool(set(m1) & used) and len(steps) > 0)
     for t in tally:
         ctx.mon.note(f"siblings: different gates with {t}")
     for s in steps:
         ctx.mon.note(f"rebind step: {s}")
+    if target == "circuit" and late is not None:
+        ctx.mon.note("rebind step: operations-appended-in-place")
 
     if target != "circuit":
         op = rng.choice(gate_ops)
@@ -1267,14 +1486,50 @@ def run_rebind(ctx, symbols):
     ctx.check("rebind", same and describe_circuit(c) == text and list(c.free_symbols) == fs0,
               lambda: f"the circuit changed under binding: {text} -> {describe_circuit(c)}, free symbols {fs0} -> "
               f"{list(c.free_symbols)}")
+    if late is not None:
+        # the list that c.operations handed out grows by an operation with a symbol of its own (the caller's doing,
+        # on the caller's object): what the SAME circuit object reports and binds afterwards is judged against the
+        # operations it holds now - nothing remembered from the calls above may survive
+        c.operations.append(late)
+        snap2, text2 = _snapshot(c), describe_circuit(c)
+        fs2 = list(c.free_symbols)
+        want = set(fs0) | gate_symbols(late.gate)
+        ctx.check("rebind", set(fs2) == want, lambda: f"{text2} (an operation appended to the list c.operations handed "
+                  f"out, after free_symbols / bind calls on the same circuit) reports free symbols {fs2}, its "
+                  f"parameters depend on {sorted(map(str, want))}")
+        mlate = dict(m1)
+        mlate[late_symbol] = rng.choice([0.75, 2, sympy.Rational(1, 3)])
+        judge(_bind(c, mlate), mlate, "operations-appended-in-place", snap2, c.n_qubits, text2)
+
+
+NONASCII = ["\u03b8", "\u03c6_1", "\u03bb", "\u03b2\u2082", "\u00f1u", "\u89d2\u5ea6", "\u0394t"]
+NUMTYPES_FLOWS = ["gate", "gate", "wrapped", "custom", "nongate", "nongate", "circuit", "circuit", "siblings", "twostep",
+                  "rebind"]
 
 
 def run_case(ctx):
+    if ctx.cls != "numtypes":
+        return _run_flow(ctx, ctx.cls)
+    # the flows of the other classes with numeric parameters and map values spelled in other numeric types
+    # (Fraction, Decimal, numpy integers and floats, mpmath, int / float subclasses, complex, integers beyond
+    # 2**63, tiny and huge floats), maps passed as other kinds of dict, some non-ASCII symbol names
+    flow = ctx.rng.choice(NUMTYPES_FLOWS)
+    _MODE.update(exotic=True, tag=f"numtypes/", drawn=0, ctx=ctx)
+    try:
+        return _run_flow(ctx, flow)
+    finally:
+        _MODE.update(exotic=False, tag="", drawn=0, ctx=None)
+
+
+def _run_flow(ctx, cls):
     from orquestra.quantum.circuits import Circuit
 
-    rng, cls = ctx.rng, ctx.cls
+    rng = ctx.rng
     G, W = _G, _W
     symbols = GS.symbol_pool(rng, rng.randint(2, 4), rng.choice(["plain", "plain", "shadow", "any"]))
+    if _MODE["exotic"] and rng.random() < 0.3:
+        symbols = symbols[:2] + [sympy.Symbol(n) for n in rng.sample(NONASCII, 2)]
+        rng.shuffle(symbols)
     if cls in ("gate", "wrapped", "custom"):
         defs = [rand_def(rng, rng.choice(["Foo", "V", "Rot"]))] if cls == "custom" else None
         g = rand_base_gate(rng, symbols, rng.choice(["symbol", "expr", "expr", "any"]), defs)
@@ -1283,7 +1538,8 @@ def run_case(ctx):
         used = gate_symbols(g)
         m, mk = rand_map(rng, used)
         params = _chain(g)[1].params
-        ctx.describe(f"{cls}: {describe_gate(g)} bind[{mk}] {describe_map(m)}", is_nontrivial(params, m, used))
+        _envfix(m, params)
+        _describe(ctx, f"{cls}: {describe_gate(g)} bind[{mk}] {describe_map(m)}", is_nontrivial(params, m, used))
         as_op = rng.random() < 0.5
         obj = g(*GC.rand_qubits(rng, g.num_qubits, g.num_qubits + 1)) if as_op else g
         if cls == "custom" and _cheap_matrix(g):
@@ -1314,31 +1570,47 @@ def run_case(ctx):
     if cls == "nongate":
         if rng.random() < 0.7:
             nq = rng.randint(1, 3)
-            op = W.MultiPhaseOperation(tuple(rand_param(rng, symbols, rng.choice(["numeric", "symbol", "expr"]))
+            op = W.MultiPhaseOperation(tuple(rand_param(rng, symbols, rng.choice(["numeric", "symbol", "expr"]), "phase")
                                              for _ in range(2 ** nq)))
         else:
             op = W.ResetOperation(rng.randrange(5))
         used = set().union(*[_atoms(p) for p in op.params]) if op.params else set()
-        m, mk = rand_map(rng, used or set(symbols[:1]), values=rng.choice([None, "float", "int"]))
-        ctx.describe(f"nongate: {describe_op(op)} bind[{mk}] {describe_map(m)}", is_nontrivial(op.params, m, used))
+        m, mk = rand_map(rng, used or set(symbols[:1]),
+                         values=rng.choice([None, "float", "int"] + (["bigvalue"] * 2 if _MODE["exotic"] else [])))
+        _envfix(m, op.params)
+        _describe(ctx, f"nongate: {describe_op(op)} bind[{mk}] {describe_map(m)}", is_nontrivial(op.params, m, used))
         b = _bind(op, m)
         list(op.free_symbols)
         if b is not None:
             list(b.free_symbols)
             if isinstance(op, W.MultiPhaseOperation) and not list(b.free_symbols) and \
-                    all(GS.is_python_number(p) or p.is_real for p in b.params):
+                    all((NT.is_real_number(p) and abs(complex(p)) < 1e6) if NT.is_number(p) else
+                        (p.is_real and abs(_val(p, None)) < 1e6) for p in b.params) and \
+                    all(abs(_val(own_sub(p, m), None)) < 1e6 for p in op.params):
                 # meaning: the bound operation multiplies by exp(i * theta_k) with the substituted values
                 v = L.random_state(ctx.nprng, len(op.params))
-                exp = np.array([np.exp(1j * float(sympy.N(own_sub(p, m)))) for p in op.params]) * v
+                exp = np.array([np.exp(1j * _val(own_sub(p, m), None).real) for p in op.params]) * v
                 got = b.apply(v)
                 ctx.check("multiphase-apply", L.maxdiff(exp, got) <= 1e-9,
                           lambda: f"{describe_op(op)} bound with {describe_map(m)} applies {got} instead of {exp}")
         try:
             op.replace_params(tuple(op.params))
             if isinstance(op, W.MultiPhaseOperation):
-                op.replace_params(tuple(rand_param(rng, symbols, "any") for _ in op.params))
+                op.replace_params(tuple(rand_param(rng, symbols, "any", "phase") for _ in op.params))
         except Exception:
             pass
+        if _MODE["exotic"] and isinstance(op, W.ResetOperation):
+            # a reset that carries parameters (what replace_params gives) binds like every other operation
+            carried = op.replace_params(tuple(rand_param(rng, symbols, rng.choice(["numeric", "symbol", "expr"]), "phase")
+                                              for _ in range(rng.randint(1, 3))))
+            mc, _ = rand_map(rng, set().union(*[_atoms(p) for p in carried.params]) or set(symbols[:1]))
+            _envfix(mc, carried.params)
+            ctx.mon.note("reset operation carrying parameters bound")
+            bc = _bind(carried, mc)
+            if bc is not None:
+                left = set().union(*[_atoms(own_sub(p, mc)) for p in carried.params])
+                ctx.check("absent-untouched", left == set(bc.free_symbols), lambda: f"{describe_op(carried)}.bind("
+                          f"{describe_map(mc)}) should still depend on {sorted(map(str, left))}: {describe_op(bc)}")
         return
     if cls == "rebind":
         return run_rebind(ctx, symbols)
@@ -1359,8 +1631,9 @@ def run_case(ctx):
         params = [p for op in c.operations for p in _op_params(op)]
         if cls == "circuit":
             m, mk = rand_map(rng, used)
-            ctx.describe(f"{tag}circuit: {describe_circuit(c)} bind[{mk}] {describe_map(m)}",
-                         is_nontrivial(params, m, used) if tally is None else bool(tally))
+            _envfix(m, params)
+            _describe(ctx, f"{tag}circuit: {describe_circuit(c)} bind[{mk}] {describe_map(m)}",
+                      is_nontrivial(params, m, used) if tally is None else bool(tally))
             list(c.free_symbols)
             b = _bind(c, m)
             if b is not None:
@@ -1372,7 +1645,7 @@ def run_case(ctx):
             return
         if cls == "chained":
             m, style = chained_map(rng, used or set(symbols))
-            ctx.describe(f"{tag}chained[{style}]: {describe_circuit(c)} bind {describe_map(m)}", True)
+            _describe(ctx, f"{tag}chained[{style}]: {describe_circuit(c)} bind {describe_map(m)}", True)
             ctx.tag("chained")
             b = _bind(c, m)
             if b is not None:
@@ -1388,8 +1661,10 @@ def run_case(ctx):
         m2 = {k: rand_value(rng, fresh) for k in ul[cut:] if rng.random() < 0.8}
         if rng.random() < 0.3:
             m2[sympy.Symbol("unused")] = 1.5
-        ctx.describe(f"{tag}twostep: {describe_circuit(c)} bind {describe_map(m1)} then {describe_map(m2)}",
-                     (is_nontrivial(params, m1, used) or is_nontrivial(params, m2, used)) if tally is None else bool(tally))
+        _envfix(m1, params)
+        _envfix(m2, params)
+        _describe(ctx, f"{tag}twostep: {describe_circuit(c)} bind {describe_map(m1)} then {describe_map(m2)}",
+                  (is_nontrivial(params, m1, used) or is_nontrivial(params, m2, used)) if tally is None else bool(tally))
         b1 = _bind(c, m1)
         b12 = _bind(b1, m2) if b1 is not None else None
         once = _bind(c, {**m1, **m2})
